@@ -112,6 +112,10 @@ type Proxy struct {
 	// proxy unlocked); download faults that fire later on the returned reader
 	// are reported through AfterCall as a second record with the same Seq.
 	AfterCall func(c Call)
+	// InFlight, if set, runs at the start of every client call, before the
+	// store is touched: the instant a concurrent observer of litestream's
+	// public state could look while the call is still outstanding.
+	InFlight func(c Call)
 }
 
 var (
@@ -217,7 +221,13 @@ func (p *Proxy) pick(op string, level int, min, max ltx.TXID, kinds ...string) (
 		}
 	}
 	p.calls = append(p.calls, c)
-	return p.fc, c
+	fc, cb := p.fc, p.InFlight
+	if cb != nil {
+		p.mu.Unlock()
+		cb(c)
+		p.mu.Lock()
+	}
+	return fc, c
 }
 
 func (p *Proxy) done(c Call, err error) {
